@@ -26,7 +26,7 @@ RULE = ('random programs as for C01 whose bodies also contain ! at the top level
         'otherwise only its own consumers must agree with each other), leave no variable bound and the recursion limit unchanged.')
 TRUSTED_BASE = []
 
-N_LONG = {'quick': 50, 'thorough': 400}
+N_LONG = {'quick': 60, 'thorough': 450}
 N_REC = {'quick': 50, 'thorough': 400}
 
 def gen(rng, tier):
@@ -46,8 +46,10 @@ def gen(rng, tier):
             cl.append([name, args, body])
         cases.append({'clauses': cl, 'queries': p['queries']})
     # program shapes that the layered random programs never reach (lib/progs_shapes.py)
-    for _ in range(N_LONG[tier]):
-        cases.append(progs_shapes.gen_long_body_program(rng))
+    for i in range(N_LONG[tier]):
+        # two of three may fill CPython's 20 statically nested blocks completely (round 4: most of those are filled up to exactly 20, half
+        # of them with a control construct as their very last goal), the others leave one block free as before
+        cases.append(progs_shapes.gen_long_body_program(rng, progs_shapes.MAX_FOR_EXACT if i % 3 else None))
     for _ in range(N_REC[tier]):
         cases.append(progs_shapes.gen_recursive_program(rng))
     return cases
